@@ -73,6 +73,7 @@ def gen_profile(rng, focus=None):
     p["late_register"] = rng.random() < 0.12  # some tasks are registered in the workflow before they are linked, others after
     p["wp_targets_any"] = rng.random() < 0.15  # a workplace also lists tasks that have no component (`wp.extend_targeted_task_list(workflow.task_list)`)
     p["same_group_ids"] = rng.random() < 0.08  # workplace IDs equal team IDs (IDs are unique per kind only)
+    p["prefix_ids"] = rng.random() < 0.08  # resource IDs that contain each other as strings (w1, w10, w100)
     p["same_ids"] = rng.random() < 0.08  # facility IDs equal worker IDs (IDs are unique per kind only)
     p["wp_ctor_inputs"] = rng.random() < 0.25  # conveyor links handed to the workplace constructor (one-sided: no output lists)
     p.update(focus)
@@ -262,6 +263,19 @@ def gen_model(rng, p, n_tasks=None):
         comp_tasks = [i for i, t in enumerate(tasks) if t.get("comp") is not None]
         wps.append({"id": "p0", "cap": rng.choice(CAPS), "targets": [i for i in comp_tasks if rng.random() < 0.8],
                     "inputs": [], "facs": []})
+    if p.get("prefix_ids") and not p.get("same_ids"):
+        k_ = 0
+        for tm in teams:
+            for w in tm["workers"]:
+                w["id"] = "w1" + "0" * k_
+                k_ += 1
+        k_ = 0
+        for wp in wps:
+            for f in wp["facs"]:
+                old_ = f.get("name", f["id"])
+                f["id"] = "f1" + "0" * k_
+                f["name"] = old_
+                k_ += 1
     allw = [w["id"] for tm in teams for w in tm["workers"]]
     allf = [f["id"] for wp in wps for f in wp["facs"]]
     if p["fix"]:
@@ -323,6 +337,8 @@ def gen_model(rng, p, n_tasks=None):
         m["int_kinds"] = True
     if p.get("extend_links"):
         m["extend_links"] = True
+        if rng.random() < 0.4:
+            m["extend_iter"] = True
     if p.get("wp_ctor_inputs") and any(wp.get("inputs") for wp in wps):
         m["wp_ctor_inputs"] = True
     if p.get("late_register") and n > 1 and not m.get("assign_list"):
@@ -411,6 +427,7 @@ def gen_feasible(rng, p):
     p["auto_comp"] = False
     p["untargeted"] = False
     p["dup_names"] = False  # the construction below reasons about eligibility per task
+    p["prefix_ids"] = False  # (workers are added below with running numbers)
     m = gen_model(rng, p)
     tasks = m["tasks"]
     for t in tasks:
